@@ -222,6 +222,7 @@ func StatePredicates(prefix string) {
 	verifrt.Region(prefix+"bad:c02-merge-out-of-order", S.MergeOutOfOrder)
 	verifrt.Region(prefix+"bad:c02-send-before-merge", S.SendBeforeMerge)
 	verifrt.Region(prefix+"bad:c02-send-out-of-order", S.SendOutOfOrder)
+	verifrt.Region(prefix+"bad:c02-sent-after-a-later-change", S.SendAfterLater)
 	// a proposal is reported APPLIED although its change never reached the device (C02: every accepted change is sent,
 	// in order; C04: the device converges to the stored configuration)
 	unsent := false
